@@ -63,7 +63,7 @@ class Rule:
             self.ctx.rules.append(self)
             return True
         if et is not None and issubclass(et, (KeyError, IndexError, AssertionError, TypeError,
-                                              AttributeError, ValueError)):
+                                              AttributeError, ValueError, NameError, RuntimeError)):
             # an analysis that cannot interpret the code shape fails closed
             tbs = traceback.format_exception(et, ev, tb)
             self.bad("analysis-failed:%s" % et.__name__,
